@@ -679,8 +679,10 @@ def suite_subwf_rows(ctx):
 
 
 def engine_traces(ctx):
-    """Engine-level trace correspondence (sub-workflow hand-off against Model/Engine.v): added by the engine suite."""
-    pass
+    """Real engine, oracle only (the core engine model has no sub-workflows): parent task mirrors child,
+    root id, quiescent => final, no lost post-commit operation; plain and with-items callers, pause/resume."""
+    from harness import engine_explore as ee
+    ee.explore(ctx, ['C09', 'C01'], ['subwf'], ctx.n(24, 240), 4, suite='engine_explore_C09')
 
 
 def run(ctx):
